@@ -62,10 +62,11 @@ type nodeState struct {
 	log        map[uint64]entryInfo
 	cfgs       map[uint64]*ev.Cfg // config entries in the shadow log
 
-	st     ev.St
-	hasSt  bool
-	commit uint64
-	latest *ev.Cfg // latest configuration according to the node
+	st         ev.St
+	hasSt      bool
+	commit     uint64
+	latest     *ev.Cfg        // latest configuration according to the node
+	removedFor map[uint64]int // index of the configuration that removed it -> incarnation that shut down for it
 	// C17: the leader this node hears from, and what that leader has sent to
 	// the other nodes since it last contacted this one (while no fault is active)
 	followL, followT uint64
@@ -155,7 +156,7 @@ type Analyzer struct {
 	wireIDs       map[uint64]bool    // node ids used by wire-level harness peers
 	elXfer        map[[3]uint64]bool // (cid, candidate, term) -> the election had transfer permission
 	alias         map[uint64]uint64  // virtual node id -> peer id it speaks as (engine B)
-	wireQ         []*ev.Rec // requests announced by the wire-level peer, not yet handled by the node
+	wireQ         []*ev.Rec          // requests announced by the wire-level peer, not yet handled by the node
 	cfgPayload    map[[3]uint64]*ev.Cfg
 	ticks         int64
 	faultsStopped bool
